@@ -25,6 +25,7 @@ class DataArray:
             raise ValueError(f"different number of dimensions on data and dims: {self.data.ndim} vs {len(self.dims)}")
         self.attrs = dict(attrs or {})
         self.name = name
+        self.coords = dict(coords or {})
 
     # numpy interop inside patched modules
     def __vx_array__(self):
@@ -80,7 +81,32 @@ class DataArray:
             yield DataArray(self.data[i], dims=self.dims[1:], attrs=self.attrs)
 
     def copy(self, deep=True):
-        return DataArray(self.data.copy(), dims=self.dims, attrs=self.attrs)
+        return DataArray(self.data.copy(), dims=self.dims, attrs=self.attrs, coords=dict(self.coords))
+
+    # -- the little arithmetic the Photon container needs
+    def _wrap(self, data):
+        return DataArray(data, dims=self.dims, attrs=self.attrs, coords=dict(self.coords))
+
+    def __lt__(self, o):
+        return self._wrap(self.data < (o.data if isinstance(o, DataArray) else o))
+
+    def __add__(self, o):
+        return self._wrap(self.data + (o.data if isinstance(o, DataArray) else o))
+
+    def __iadd__(self, o):
+        if isinstance(o, DataArray) and o.dims != self.dims:
+            raise ValueError(f"cannot add arrays with dimensions {o.dims} and {self.dims} in place")
+        self.data += (o.data if isinstance(o, DataArray) else o)
+        return self
+
+    def clip(self, min=None, max=None):  # noqa: A002
+        return self._wrap(symnp.clip(self.data, min, max))
+
+    def astype(self, dtype, **kw):
+        return self._wrap(self.data.astype(dtype))
+
+    def equals(self, other):
+        return isinstance(other, DataArray) and self.dims == other.dims and symnp.array_equal(self.data, other.data)
 
     def __deepcopy__(self, memo):
         return self.copy()
